@@ -25,7 +25,6 @@ Ltac bdestr :=
   end; cbn [andb orb negb].
 
 (** ---- store_seq ---- *)
-Definition byte_at (bytes : list N) (j : N) : N := nth (N.to_nat j) bytes 0.
 
 Lemma store_seq_ok bytes : forall m off k,
   off + k + N.of_nat (length bytes) <= flen m -> flen m <= two32 ->
